@@ -313,6 +313,9 @@ func randReuse(rng *vlib.Rng) (Plan, []HOp) {
 		n := rng.Intn(5)
 		if rng.Chance(3) {
 			n = 256 + rng.Intn(200) // a busy first session: hundreds of records held before the login
+			if rng.Chance(15) {
+				n = 1001 + rng.Intn(300) // ... or more than a thousand
+			}
 		}
 		post := 0
 		if rng.Chance(30) {
@@ -471,8 +474,10 @@ func checkC16(r *vlib.Run) int {
 	nRand := r.Pick(20000, 1000000)
 	x := apiExec{realClock: true}
 	doJob := func(ops []HOp) {
-		atomic.AddInt64(&evals, 1)
-		res := x.run(plan, ops)
+		n := atomic.AddInt64(&evals, 1)
+		xx := x
+		xx.debugLog = n%2 == 1 // every other history with a debug-level tracker
+		res := xx.run(plan, ops)
 		st.account(plan, ops, res)
 		fs := checkHistory(plan, ops, res, false)
 		// count predicted outcomes
